@@ -72,6 +72,10 @@ def cartEquivalents (domain : Nat) (rotational through : Bool) (i j : Int) :
     else some [(-i - 1, j), (-i - 1, -j - 1), (i, -j - 1)]
   else none
 
+/-- `CartesianGrid.getSymmetricEquivalents((i, j, k))`: `i, j = indices[0:2]` -/
+def cartEquivalentsK (domain : Nat) (rotational through : Bool) (c : Int × Int × Int) :
+    Option (List (Int × Int)) := cartEquivalents domain rotational through c.1 c.2.1
+
 /-- `CartesianGrid.locatorInDomain` -/
 def cartInDomain (quarter : Bool) (i j : Int) : Bool :=
   if quarter then decide (i ≥ 0 ∧ j ≥ 0) else true
@@ -411,6 +415,22 @@ def globalCoordsT : List LocT → Option (List Rat)
     let b ← globalCoordsT rest
     some (vadd a b)
 
+/-- `getLocalCoordinates(nativeCoords)` of a chain element: only a `ThetaRZGrid` looks at the flag
+(`StructuredGrid.getCoordinates` and `CoordinateLocation.getLocalCoordinates` ignore it) -/
+def LocT.localCoordsN (native : Bool) : LocT → Option (List Rat)
+  | .plain l => l.localCoords
+  | .trz tau cs sn g i j k => trzGetCoordinates tau cs sn native g [i, j, k]
+
+/-- `getGlobalCoordinates(nativeCoords)`: the flag is handed to the local query AND on to the parent's
+`getGlobalCoordinates`, at every level -/
+def globalCoordsTN (native : Bool) : List LocT → Option (List Rat)
+  | [] => none
+  | [l] => l.localCoordsN native
+  | l :: rest => do
+    let a ← l.localCoordsN native
+    let b ← globalCoordsTN native rest
+    some (vadd a b)
+
 /-! ### changing the pitch -/
 
 /-- `HexGrid._getRawUnitSteps(pitch, cornersUp)`; `s3` stands for √3 (`hexagon.SQRT3`) -/
@@ -520,32 +540,37 @@ def getLabel (idx : List Int) : Option (List Sym) :=
   | [i, j, k] => some (fmt03 i ++ Sym.dash :: fmt03 j ++ Sym.dash :: fmt03 k)
   | i :: j :: _ => some (fmt03 i ++ Sym.dash :: fmt03 j)
 
-/-- Python `label.split("-")` -/
-def splitDash : List Sym → List (List Sym)
-  | [] => [[]]
-  | Sym.dash :: rest => [] :: splitDash rest
-  | s :: rest =>
-    match splitDash rest with
-    | hd :: tl => (s :: hd) :: tl
-    | [] => [[s]]
+/-- scanner state of the label grammar `(-?\d+)(?:-(-?\d+))*`: at the start of a number (start of the label or
+right after a separator), after a sign, or inside the digits of a number (sign, value so far) -/
+inductive LState where
+  | start
+  | signed
+  | num (neg : Bool) (v : Nat)
+deriving DecidableEq, Repr
 
-def symDigits : List Sym → Option (List Nat)
-  | [] => some []
-  | Sym.dig d :: r => (symDigits r).map (d :: ·)
-  | _ :: _ => none
+def signedVal (neg : Bool) (v : Nat) : Int := if neg then -(v : Int) else (v : Int)
+
+/-- the numbers of a label: `re.fullmatch(r"(-?\d+)(?:-(-?\d+))*", label)` (no match = ValueError = `none`) followed by
+`re.findall(r"(?:^|(?<=\d)-)(-?\d+)", label)` and `int` — on a label that matches the grammar the greedy digit runs
+make `findall` return exactly the numbers of the grammar: a dash that opens the label or directly follows a separator
+is a sign, a dash after a digit is a separator.  Domain of the tie: labels over digits and '-'. -/
+def labelScan : List Sym → LState → Option (List Int)
+  | [], .num neg v => some [signedVal neg v]
+  | [], _ => none
+  | Sym.dash :: r, .start => labelScan r .signed
+  | Sym.dig d :: r, .start => labelScan r (.num false d)
+  | Sym.dig d :: r, .signed => labelScan r (.num true d)
+  | Sym.dash :: _, .signed => none
+  | Sym.dig d :: r, .num neg v => labelScan r (.num neg (v * 10 + d))
+  | Sym.dash :: r, .num neg v => (labelScan r .start).map (signedVal neg v :: ·)
+  | Sym.other :: _, _ => none
 
 def parseDigits (ds : List Nat) : Nat := ds.foldl (fun acc d => acc * 10 + d) 0
 
-/-- Python `int(s)` on a piece of a label split at '-' (so no sign can be left): one or more decimal digits;
-`none` = ValueError (empty piece, foreign character).  Domain of the tie: labels over digits and '-' only. -/
-def pyInt (t : List Sym) : Option Int :=
-  match t with
-  | [] => none
-  | _ => (symDigits t).map (fun ds => ((parseDigits ds : Nat) : Int))
-
-/-- `locatorLabelToIndices(label)`: exactly two values get a trailing `None`; any other count is returned as is -/
+/-- `locatorLabelToIndices(label)` (as repaired by 9ee1acd): exactly two values get a trailing `None`; any other
+count is returned as is -/
 def labelToIndices (label : List Sym) : Option (List (Option Int)) :=
-  match (splitDash label).mapM pyInt with
+  match labelScan label .start with
   | none => none
   | some [a, b] => some [some a, some b, none]
   | some vals => some (vals.map some)
